@@ -62,6 +62,10 @@ type Generator func(t *testing.T, r *rand.Rand, prop, tier string, progress *ato
 
 var generators = map[string]Generator{}
 
+// CaseIndex is the index of the case being generated in this worker's stream (for generators
+// that walk a space systematically).
+var CaseIndex int
+
 func mix(a, b int64) int64 {
 	x := uint64(a)*0x9E3779B97F4A7C15 + uint64(b)
 	x ^= x >> 30
@@ -152,6 +156,7 @@ func workerLoop(t *testing.T, cfg Config, progress *atomic.Int64, emit func(reco
 		}
 		seed := mix(mix(cfg.Seed, propNum(cfg.Prop)), int64(i))
 		r := rand.New(rand.NewSource(seed))
+		CaseIndex = i
 		c := g(t, r, cfg.Prop, cfg.Tier, progress)
 		if c == nil {
 			continue
